@@ -107,22 +107,22 @@ type PipeFaults struct {
 
 // Pipe is a bounded in-memory stream between two kernel tasks.
 type Pipe struct {
-	K        *kernel.Kernel
-	T        *core.T
-	F        PipeFaults
-	Cap      int
-	buf      []byte
-	closed   bool
-	rclosed  bool         // the read end is gone: writes fail like EPIPE
+	K             *kernel.Kernel
+	T             *core.T
+	F             PipeFaults
+	Cap           int
+	buf           []byte
+	closed        bool
+	rclosed       bool // the read end is gone: writes fail like EPIPE
 	WriteFailures int
 	ReadErrFired  bool
-	reader   *kernel.Task // parked reader
-	writer   *kernel.Task // parked writer
-	Writes   int
-	Reads    int
-	Stutters int
-	Written  int // bytes accepted
-	inRow    int
+	reader        *kernel.Task // parked reader
+	writer        *kernel.Task // parked writer
+	Writes        int
+	Reads         int
+	Stutters      int
+	Written       int // bytes accepted
+	inRow         int
 	// ReadsThisOp / BytesThisOp / StuttersThisOp are reset by the consumer per Decode (bounded liveness).
 	ReadsThisOp    int
 	BytesThisOp    int
